@@ -211,8 +211,8 @@ structure Field where
   ty : Ty
   dflt : Dflt
   noOutput : Bool := false
-  own : Bool := true          -- set up by the class itself or by a case-insensitive base (false: a ParserField taken over
-                              -- from a case-sensitive base class, whose aliases stay as declared)
+  ci : Bool := false         -- `setup_case_insensitive` (field.py:554-561): decided once, by the Options of the class that
+                             -- *declares* the field; a subclass takes the field over as it is
   deriving Repr
 
 def Dflt.isNone : Dflt → Bool
@@ -246,7 +246,7 @@ structure ROpts where
 structure Decl where
   kind : DKind
   dfs : Bool := false                       -- Options(data_first_search=True)
-  ci : Bool := false                        -- Options(case_insensitive=True)
+  ci : Bool := false                        -- Options(case_insensitive=True): how the class sets up the fields it declares
   fields : List Field
   wrappers : List (Option Opts) := []        -- func: `utype.parse(raw, options=..)` applied in this order
   fkind : FKind := .sync                     -- func: plain / `async def` / generator / async generator
@@ -425,30 +425,28 @@ def lookupKV (k : String) : List String → List Val → Option Val
   | a :: as, v :: vs => if a == k then some v else lookupKV k as vs
   | _, _ => Option.none
 
-/-- does input key `key` address field `f`?  In a case-insensitive class the class's own fields match in any
-letter case; a field taken over from a case-sensitive base keeps its own (un-lowered) aliases, so it matches
-its exact name, or — the input key being lower-cased first — its name when that is all lower-case
-(base.py:296-299, 528-536). -/
-def keyMatches (ci : Bool) (f : Field) (key : String) : Bool :=
-  if ci && f.own then key.toLower == f.name.toLower
-  else if ci then key == f.name || key.toLower == f.name
-  else key == f.name
+/-- does input key `key` address field `f`?  A field set up case-insensitively has lower-cased aliases and its
+keys are lower-cased before the lookup (base.py `generate_aliases`, `field_first_parse`): any letter case matches.
+A field set up case-sensitively matches its exact name only — in whatever class it is used (`is_case_insensitive`
+returns the recorded setup decision, field.py:761-766). -/
+def keyMatches (f : Field) (key : String) : Bool :=
+  if f.ci then key.toLower == f.name.toLower else key == f.name
 
-def lookupF (ci : Bool) (f : Field) : List String → List Val → Option Val
-  | a :: as, v :: vs => if keyMatches ci f a then some v else lookupF ci f as vs
+def lookupF (f : Field) : List String → List Val → Option Val
+  | a :: as, v :: vs => if keyMatches f a then some v else lookupF f as vs
   | _, _ => Option.none
 
 /-- Field-first search — base.py:520-600: for every field, its input value or its default. -/
-def fieldsFF (rec : Ty → Val → Comp) (ro : ROpts) (ci : Bool) (keys : List String) (items : List Val) :
+def fieldsFF (rec : Ty → Val → Comp) (ro : ROpts) (keys : List String) (items : List Val) :
     List Field → St → Except Err (List (String × Val)) × St
   | [], s => (.ok [], s)
   | f :: fs, s =>
-      match lookupF ci f keys items with
+      match lookupF f keys items with
       | some v =>
           match rec f.ty v s with                                  -- `field.parse_value(value)`
           | (.error e, s1) => (.error e, s1)
           | (.ok v', s1) =>
-            match fieldsFF rec ro ci keys items fs s1 with
+            match fieldsFF rec ro keys items fs s1 with
             | (.error e, s2) => (.error e, s2)
             | (.ok r, s2) => (.ok ((f.name, v') :: r), s2)
       | Option.none =>
@@ -456,23 +454,23 @@ def fieldsFF (rec : Ty → Val → Comp) (ro : ROpts) (ci : Bool) (keys : List S
           if f.dflt.isNone && !ro.ignoreRequired then (.error .perr, s)       -- AbsenceError
           else
           match getDefault ro f.dflt s with
-          | (Option.none, s1) => fieldsFF rec ro ci keys items fs s1          -- no default: the field stays absent
+          | (Option.none, s1) => fieldsFF rec ro keys items fs s1          -- no default: the field stays absent
           | (some d, s1) =>
-            match fieldsFF rec ro ci keys items fs s1 with
+            match fieldsFF rec ro keys items fs s1 with
             | (.error e, s2) => (.error e, s2)
             | (.ok r, s2) => (.ok ((f.name, d) :: r), s2)
 
 /-- Data-first search, first loop — base.py:424-474: parse the provided items in input order. -/
-def dataLoop (rec : Ty → Val → Comp) (ci : Bool) (fields : List Field) :
+def dataLoop (rec : Ty → Val → Comp) (fields : List Field) :
     List String → List Val → St → Except Err (List (String × Val)) × St
   | k :: ks, v :: vs, s =>
-      match fields.find? (fun f => keyMatches ci f k) with
-      | Option.none => dataLoop rec ci fields ks vs s             -- unknown key, addition=None: dropped
+      match fields.find? (fun f => keyMatches f k) with
+      | Option.none => dataLoop rec fields ks vs s             -- unknown key, addition=None: dropped
       | some f =>
           match rec f.ty v s with
           | (.error e, s1) => (.error e, s1)
           | (.ok v', s1) =>
-            match dataLoop rec ci fields ks vs s1 with
+            match dataLoop rec fields ks vs s1 with
             | (.error e, s2) => (.error e, s2)
             | (.ok r, s2) => (.ok ((f.name, v') :: r), s2)
   | _, _, s => (.ok [], s)
@@ -495,14 +493,14 @@ def defaultLoop (ro : ROpts) (have_ : List String) : List Field → St → Excep
 def parseData (rec : Ty → Val → Comp) (ro : ROpts) (d : Decl) (keys : List String) (items : List Val) :
     St → Except Err (List (String × Val)) × St := fun s =>
   if ro.dfs.getD d.dfs then
-    match dataLoop rec d.ci d.fields keys items s with
+    match dataLoop rec d.fields keys items s with
     | (.error e, s1) => (.error e, s1)
     | (.ok r1, s1) =>
       -- "under ignore_required no field is required (is_required), but the defaults of unprovided fields still apply"
       match defaultLoop ro (r1.map (·.1)) d.fields s1 with
       | (.error e, s2) => (.error e, s2)
       | (.ok r2, s2) => (.ok (r1 ++ r2), s2)
-  else fieldsFF rec ro d.ci keys items d.fields s
+  else fieldsFF rec ro keys items d.fields s
 
 inductive Style where
   | kw      -- `Cls(**data)`
